@@ -10,10 +10,10 @@ use std::ffi::OsString;
 
 pub static DEF: PropDef = PropDef {
     id: "C20",
-    rule: "random: 0-12 input lines built from words, inner and trailing blanks, the replacement string R itself, '{}', '%', multi-byte text (1 case in 8 written in Latin-1, so that such lines are not valid UTF-8; compared byte for byte), glob and shell characters (no quotes, backslashes or leading blanks: the statement's domain), blank lines in between, with/without final newline; sub-run delimited: replace mode on -0 / -d ',' input whose items start with blanks and hold quotes, backslashes and (with -0) newlines - ordinary bytes there; sub-run long-input: 1-3 filler lines bring the first run of 2-4 empty lines onto a multiple of 4096/8192/16384 bytes (offset 0..run+1), so that the run is split between two reads; (1 case in 25 without any command: the built-in echo must then print one empty line per input line) 0-4 initial arguments each holding 0-3 occurrences of R (adjacent, embedded, alone); R in {'{}', '_', 'XX', '%', 'é', '{', '{}{}'}; spellings -I R / -i / --replace / --replace=R; mode options: -I alone, or 2-3 of -I R, -n k, -L k (k in 1..3) in every order. Exhaustive sub-run: the full order matrix of {-I, -n k, -L k} (k in 1..3), 2 or 3 of them, on a fixed three-line input. Oracle: replace mode: records == for each non-empty line in order [initial args with every R replaced by the whole line], nothing appended, exit 0, empty input => no record; the mode is decided by the last of -I/-n/-L (-I with -n 1 in either order is replace mode); -n/-L modes are modelled as in C04 (blank splitting, k arguments / k lines per invocation, initial arguments unchanged). Non-trivial = (a line contains a blank or R, and some initial argument contains R at least twice) or >= 2 mode options are present. Distinct = distinct case JSON.",
+    rule: "random: 0-12 input lines built from words, inner and trailing blanks, the replacement string R itself, '{}', '%', multi-byte text (1 case in 8 written in Latin-1, so that such lines are not valid UTF-8; compared byte for byte), glob and shell characters (no quotes, backslashes or leading blanks: the statement's domain), blank lines in between, with/without final newline; sub-run delimited: replace mode on -0 / -d ',' input whose items start with blanks and hold quotes, backslashes and (with -0) newlines - ordinary bytes there; sub-run long-input: 1-3 filler lines bring the first run of 2-4 empty lines onto a multiple of 4096/8192/16384 bytes (offset 0..run+1), so that the run is split between two reads; (1 case in 25 without any command: the built-in echo must then print one empty line per input line) 0-4 initial arguments each holding 0-3 occurrences of R (adjacent, embedded, alone); R in {'{}', '_', 'XX', '%', 'é', '{', '{}{}', '-x', '--'}; spellings -I R / -i / --replace / --replace=R; mode options: -I alone, or 2-3 of -I R, -n k, -L k (k in 1..3) in every order. Exhaustive sub-run: the full order matrix of {-I, -n k, -L k} (k in 1..3), 2 or 3 of them, on a fixed three-line input. Oracle: replace mode: records == for each non-empty line in order [initial args with every R replaced by the whole line], nothing appended, exit 0, empty input => no record; the mode is decided by the last of -I/-n/-L (-I with -n 1 in either order is replace mode); -n/-L modes are modelled as in C04 (blank splitting, k arguments / k lines per invocation, initial arguments unchanged). Non-trivial = (a line contains a blank or R, and some initial argument contains R at least twice) or >= 2 mode options are present. Distinct = distinct case JSON.",
     assumptions: &[
         "lines are free of quotes, backslashes and leading blanks (stated domain); a line of only blanks is not generated",
-        "three mode options that include -I, -n 1 and -L together are not generated: 'last wins' and '-I with -n 1 is not a conflict' do not settle which mode results",
+        "-I, -n 1 and -L together: read left to right, -n 1 leaves a -I that is in force in force (it is 'not a conflict'), every other later option takes over",
         "xargs prints a warning on stderr for conflicting mode options; stderr is not asserted",
     ],
     run,
@@ -137,7 +137,7 @@ fn gen_initial(g: &mut Gen, r: &str) -> String {
 
 pub fn gen_case(g: &mut Gen) -> Case {
     let spelling = g.weighted(&[5, 1, 1, 2]) as u8;
-    let r: String = if spelling == 1 || spelling == 2 { "{}".into() } else { g.pick(&["{}", "{}", "_", "XX", "%", "é", "{", "{}{}"]).to_string() };
+    let r: String = if spelling == 1 || spelling == 2 { "{}".into() } else { g.pick(&["{}", "{}", "_", "XX", "%", "é", "{", "{}{}", "-x", "--"]).to_string() };
     let nlines = if g.chance(1, 10) { 0 } else { g.usize_in(1, 12) };
     let mut lines: Vec<String> = vec![];
     for _ in 0..nlines {
@@ -159,8 +159,7 @@ pub fn gen_case(g: &mut Gen) -> Case {
             }
         }
         _ => {
-            // -n >= 2 so that the three-option case is decided by "last wins"
-            let mut v = vec![ModeOpt::I, ModeOpt::N(g.usize_in(2, 3)), ModeOpt::L(g.usize_in(1, 3))];
+            let mut v = vec![ModeOpt::I, ModeOpt::N(g.usize_in(1, 3)), ModeOpt::L(g.usize_in(1, 3))];
             // permutation
             let p = g.below(6) as usize;
             let perms = [[0, 1, 2], [0, 2, 1], [1, 0, 2], [1, 2, 0], [2, 0, 1], [2, 1, 0]];
@@ -265,22 +264,20 @@ pub enum Eff {
     L(usize),
 }
 
-/// None: the statement does not decide
+/// The mode in force: the option given last decides, except that `-n 1` does not take the mode away
+/// from a `-I` that is in force ("-I with -n 1 is not a conflict"), and `-I` after `-n 1` is in force
+/// like after anything else.
 pub fn effective(modes: &[ModeOpt]) -> Option<Eff> {
-    let has_i = modes.contains(&ModeOpt::I);
-    let has_l = modes.iter().any(|m| matches!(m, ModeOpt::L(_)));
-    let n1 = modes.iter().any(|m| matches!(m, ModeOpt::N(1)));
-    if has_i && n1 && has_l {
-        return None;
+    let mut eff: Option<Eff> = None;
+    for m in modes {
+        eff = Some(match (eff, m) {
+            (Some(Eff::Replace), ModeOpt::N(1)) => Eff::Replace,
+            (_, ModeOpt::I) => Eff::Replace,
+            (_, ModeOpt::N(k)) => Eff::N(*k),
+            (_, ModeOpt::L(k)) => Eff::L(*k),
+        });
     }
-    if has_i && n1 && !has_l {
-        return Some(Eff::Replace);
-    }
-    Some(match modes.last()? {
-        ModeOpt::I => Eff::Replace,
-        ModeOpt::N(k) => Eff::N(*k),
-        ModeOpt::L(k) => Eff::L(*k),
-    })
+    eff
 }
 
 pub fn cmdline(c: &Case) -> Vec<OsString> {
